@@ -376,12 +376,29 @@ def mg78(F, R):
         if x[0] == "call" and x[1].split("::")[-1] == "len" and mentions(x[2][0], lambda y: y[0] == "call" and y[1].endswith("::keys") and strip_load(y[2][0]) == gp):
             return True
         return False
+    def plain_keys_source(x):
+        """x iterates keys(right graph) itself, in its order, item by item: only item-keeping adaptors on the way (an `enumerate`,
+        `zip` or `map` in front of the filter makes the closure see something else than the vertex id — a position, say)"""
+        x = strip_load(x)
+        for _ in range(8):
+            if x[0] == "adapt" and x[1] in ("copied", "cloned", "filter", "inspect", "peekable"):
+                x = strip_load(x[2])
+                continue
+            break
+        return x[0] == "iter" and x[2] in ("iter", "into_iter") and strip_load(x[1])[0] == "call" and \
+            strip_load(x[1])[1].endswith("::keys") and strip_load(x[1])[2] and strip_load(strip_load(x[1])[2][0]) == gp
+
+    def arg_is_the_item(a):
+        return mentions(a, lambda y: y == ("param", 2)) and not mentions(a, lambda y: y[0] == "field" and "(tuple)" in str(y[2]))
+
     def is_unmapped_list(x):
         """x is (collected from) keys(right graph) filtered by `!mapped.contains_key(v)` (and, redundantly, `v != right`: the root is
         the first vertex the descent maps)"""
         for fx in [y for y in walk(x) if y[0] == "adapt" and y[1] == "filter"]:
             try:
                 if not mentions(fx[2], lambda y: y[0] == "call" and y[1].endswith("::keys") and y[2] and strip_load(y[2][0]) == gp):
+                    continue
+                if not plain_keys_source(fx[2]):
                     continue
                 clo = strip_load(fx[3][0])
                 cb = F.bodies.get(clo[1]) if clo[0] == "closure" else None
@@ -397,7 +414,7 @@ def mg78(F, R):
                         continue
                     ce = strip_load(f[1]) if f[0] == "bool" else None
                     if ce is not None and f[2] is False and ce[0] == "call" and ce[1].split("::")[-1] == "contains_key" and len(ce[2]) == 2 and \
-                            strip_sites(strip_load(unload(subst(ce[2][0], mapping)))) == strip_sites(mapx) and mentions(ce[2][1], lambda y: y == ("param", 2)):
+                            strip_sites(strip_load(unload(subst(ce[2][0], mapping)))) == strip_sites(mapx) and arg_is_the_item(ce[2][1]):
                         has_unmapped = True
                         continue
                     g2 = unload(subst(f, mapping))
@@ -503,14 +520,24 @@ def mg78(F, R):
                     if ce is None or f[2] is not False or ce[0] != "call" or ce[1].split("::")[-1] not in ("contains", "contains_key") or len(ce[2]) != 2:
                         continue
                     recv = unload(subst(ce[2][0], mapping))
-                    arg_is_item = mentions(ce[2][1], lambda y: y == ("param", 2))
+                    arg_is_item = arg_is_the_item(ce[2][1]) and plain_keys_source(fx[2])
                     of_map = strip_sites(strip_load(recv)) == strip_sites(mapx) or \
                         (mentions(recv, lambda y: y[0] == "iter" and y[2] in ("keys", "into_keys") and strip_sites(strip_load(y[1])) == strip_sites(mapx)) and
                          not mentions(recv, lambda y: y[0] == "iter" and y[2] in ("values", "values_mut", "into_values")))
                     if arg_is_item and of_map:
                         okdiff = True
+                        # keys() of the right graph is ascending and a filter keeps the order — unless a hash container sits between
+                        # keys() and the text
+                        if not mentions(pay, lambda y: y[0] == "call" and ("HashSet" in y[1] or "BTreeSet" in y[1] or "::drain" in y[1])):
+                            sorts = sorts or [("keys() of the right graph is ascending, filter keeps the order", None)]
                 except Exception:
                     continue
+        if okdiff and not sorts:
+            # the list is keys(right) — ascending — passed through order-keeping adaptors only, with no hash container between it and
+            # the text
+            fl = [x for x in walk(pay) if x[0] == "adapt" and x[1] == "filter" and plain_keys_source(x[2])]
+            if fl and not mentions(pay, lambda y: y[0] == "call" and ("HashSet" in y[1] or "BTreeSet" in y[1] or "::drain" in y[1])):
+                sorts = [("keys() of the right graph is ascending, filter keeps the order", None)]
         detail = {"guards": [show(f, m) for f in facts if "Level" not in repr(f)]}
         if not ne:
             R.bad("MG8", "MG8/Sodg::merge/err-not-on-incomplete-edge", m.where(site), "the Err result is not the other edge of the completeness test", detail)
